@@ -36,15 +36,22 @@ def slit(s):
     return " + ".join(parts)
 
 
+AFTER = {}
+
+
 def call_text(fn, a, mode, k):
-    """returns (setup lines, expression text, is_string_result)"""
+    """returns (setup lines, expression text, is_string_result); AFTER[k] = statements to run after the call"""
     setup = []
+    after = AFTER.setdefault(k, [])
+    del after[:]
 
     def S(name, s):
         if mode == "lit":
             return "(" + slit(s) + ")" if "+" in slit(s) else slit(s)
         if mode == "var":
             setup.append("%s%d$ = %s" % (name, k, slit(s)))
+            # a function leaves its arguments as they were: checked after the call
+            after.append('IF %s%d$ <> %s THEN PRINT "!ARG"' % (name, k, slit(s)))
             return "%s%d$" % (name, k)
         return 'MID$("x" + %s, 2)' % slit(s)
 
@@ -195,13 +202,14 @@ def run(tier, replay):
         line = ('PRINT "[" + %s + "]"' % ex) if is_str else ("PRINT %s" % ex)
         recs[rid] = {"id": rid, "fn": fn, "s": a.get("s", []), "t": a.get("t", []), "n": a.get("n", 0), "m": a.get("m", 0),
                      "has": bool(a.get("has", False)), "mode": mode}
+        post = list(AFTER.get(len(batch_meta), []))
         if expected_ok(fn, a):
-            batch_lines.extend(setup + [line])
+            batch_lines.extend(setup + [line] + post)
             batch_meta.append((rid, fn, is_str))
             if len(batch_meta) >= 25:
                 flush()
         else:
-            programs.append(("\r\n".join(setup + [line]) + "\r\n", [(rid, fn, is_str)]))
+            programs.append(("\r\n".join(setup + [line] + post) + "\r\n", [(rid, fn, is_str)]))
     flush()
     import shutil
     shutil.rmtree(os.path.join(d, "replay"), ignore_errors=True)
@@ -220,7 +228,7 @@ def run(tier, replay):
                     a = {"s": rr["s"], "t": rr["t"], "n": rr["n"], "m": rr["m"], "has": rr["has"]}
                     setup, ex, _ = call_text(fn, a, rr["mode"], 0)
                     line = ('PRINT "[" + %s + "]"' % ex) if is_str else ("PRINT %s" % ex)
-                    extra_programs.append(("\r\n".join(setup + [line]) + "\r\n", [meta[j]]))
+                    extra_programs.append(("\r\n".join(setup + [line] + list(AFTER.get(0, []))) + "\r\n", [meta[j]]))
                 del meta[nlines + 1:]
     if extra_programs:
         programs = programs + extra_programs
@@ -234,7 +242,13 @@ def run(tier, replay):
         out = resp.get("stdout")
         if not isinstance(out, str):
             out = bytes(out.get("bytes", [])).decode("utf-8", errors="replace")
-        lines = out.split("\r\n")
+        raw_lines = out.split("\r\n")
+        lines = []
+        for ln in raw_lines:
+            if ln == "!ARG" and lines:
+                lines[-1] = "\x00ARG"      # the call before changed one of its arguments: the record cannot agree
+            else:
+                lines.append(ln)
         oc = resp["outcome"]
         for j, (r_id, fn, is_str) in enumerate(meta):
             r = recs[r_id]
